@@ -301,6 +301,26 @@ def read_case(ctx, seed):
                         ctx.check('debug output produced', nout > 0, 'debug-silent', case, None)
                 except Exception as exc:
                     results[(debug, clip)] = f'{type(exc).__name__}: {exc}'
+        # one stream, several loads: the caller's file object is the caller's - after a load (debug on or off) it is open,
+        # positioned behind the file that was read, and a second file that follows in the same stream loads from there
+        try:
+            import gc
+            stream = io.BytesIO(b + b)
+            seen = []
+            for dbg in (True, False):
+                with contextlib.redirect_stdout(io.StringIO()):
+                    m1 = MidiFile(file=stream, debug=dbg)
+                gc.collect()
+                seen.append((m1.type, m1.ticks_per_beat, events_of(m1)))
+                ctx.check('debug on == debug off', not stream.closed, 'load-closed-the-callers-stream', case, {'debug': dbg})
+            stream.seek(0)
+            with contextlib.redirect_stdout(io.StringIO()):
+                m3 = MidiFile(file=stream, debug=True)
+            seen.append((m3.type, m3.ticks_per_beat, events_of(m3)))
+            ctx.check('debug on == debug off', seen[0] == seen[1] == seen[2], 'second-load-from-the-same-stream-differs', case, None)
+        except Exception as exc:
+            ctx.check('debug on == debug off', isinstance(results[(False, False)], str), f'same-stream:{type(exc).__name__}', case,
+                      f'{type(exc).__name__}: {exc}')
         base = results[(False, False)]
         ctx.check('alternative encoding loads to the event list',
                   not isinstance(base, str) and base == (fmt, div, want),
